@@ -25,8 +25,8 @@ def parseKind? (s : String) : Option Kind :=
   | ["usrch"] => some (.search true false)
   | ["esrch"] => some (.search false true)
   | ["uesrch"] => some (.search true true)
-  | ["fetch", set] | ["store", set] => (nums? set).map (.fetch false)
-  | ["ufetch", set] | ["ustore", set] => (nums? set).map (.fetch true)
+  | ["fetch", set] | ["store", set] | ["sstore", set] | ["cstore", set] => (nums? set).map (.fetch false)
+  | ["ufetch", set] | ["ustore", set] | ["usstore", set] | ["ucstore", set] => (nums? set).map (.fetch true)
   | ["expunge"] => some .expunge
   | ["cap"] => some .capability
   | ["append", _] => some .append
@@ -69,7 +69,7 @@ def parseEv? (s : String) : Option (Ev × Bool) :=
   | ["p", fs] => (digits? fs).map fun fs => (.permFlags fs, false)
   | ["un", n] => (parseNat? n).map fun n => (.uidNext n, false)
   | ["uv", n] => (parseNat? n).map fun n => (.uidValidity n, false)
-  | ["m", sq, uid, fs] => do pure (.fetch ⟨← parseNat? sq, ← parseNat? uid, ← digits? fs⟩, false)
+  | ["m", sq, uid, fs] | ["m", sq, uid, fs, _] => do pure (.fetch ⟨← parseNat? sq, ← parseNat? uid, ← digits? fs⟩, false)
   | ["c"] => some (.closedCode, false)
   | ["i", _] => some (.info, false)
   | ["y"] => some (.byeClose, false)
